@@ -17,6 +17,17 @@ from collections import deque
 TOP = ("notin", frozenset())
 
 
+_SIGNED_BITS = {"i8": 8, "i16": 16, "i32": 32, "i64": 64, "i128": 128, "isize": 64}
+
+
+def signed_value(v, ty):
+    """SwitchInt values are emitted as unsigned bit patterns; give signed scrutinees their signed value"""
+    n = _SIGNED_BITS.get(ty)
+    if n and v >= (1 << (n - 1)):
+        return v - (1 << n)
+    return v
+
+
 def vs_join(a, b):
     if a[0] == "in" and b[0] == "in":
         return ("in", a[1] | b[1])
@@ -189,8 +200,8 @@ class Dataflow:
         if k == "use":
             return self.expr_of_operand(rv[1], depth)
         if k == "disc":
-            p = self.canon.path(rv[1])
-            self.disc_ty[p] = self.b.ty(rv[2])
+            p = self.disc_root(self.canon.path(rv[1]))
+            self.disc_ty.setdefault(p, self.b.ty(rv[2]))
             return ("disc", p)
         if k == "bin":
             a = self.expr_of_operand(rv[2], depth)
@@ -203,6 +214,42 @@ class Dataflow:
         if k == "cfd":
             return ("val", self.canon.path(rv[1]))
         return None
+
+    # calls whose result has the same variant as their receiver: `x.as_ref()`, `x.copied()`, `x.map(f)`, `x.clone()` ...
+    DISC_PRESERVING = (
+        "core::option::Option::<T>::as_ref", "core::option::Option::<T>::as_mut", "core::option::Option::<T>::as_deref",
+        "core::option::Option::<T>::as_deref_mut", "core::option::Option::<&T>::copied", "core::option::Option::<&T>::cloned",
+        "core::option::Option::<&mut T>::copied", "core::option::Option::<&mut T>::cloned", "core::option::Option::<T>::map",
+        "core::option::Option::<T>::inspect", "core::result::Result::<T, E>::as_ref", "core::result::Result::<T, E>::as_mut",
+        "core::result::Result::<T, E>::map", "core::result::Result::<T, E>::map_err", "core::result::Result::<T, E>::inspect",
+        "core::result::Result::<T, E>::inspect_err", "core::result::Result::<&T, E>::copied", "core::result::Result::<&T, E>::cloned",
+    )
+
+    # predicate -> discriminant value of the receiver when the predicate is true (Option: None=0 Some=1; Result: Ok=0 Err=1)
+    VARIANT_PREDICATES = {
+        "core::option::Option::<T>::is_some": 1, "core::option::Option::<T>::is_none": 0,
+        "core::result::Result::<T, E>::is_ok": 0, "core::result::Result::<T, E>::is_err": 1,
+    }
+
+    def disc_root(self, path, depth=0):
+        """the place whose discriminant equals that of `path` (looking through variant-preserving adapter calls)"""
+        if path[1] or depth > 6:
+            return path
+        l = path[0]
+        if not (l > self.b.argc or l == 0):
+            return path
+        sd = self.b.single_def(l)
+        if sd and sd[0] == "call":
+            c = sd[2]
+            nm = c.callee.get("def", "")
+            ok = nm in self.DISC_PRESERVING
+            if not ok and nm == "core::clone::Clone::clone":
+                st = c.callee.get("self_ty")
+                ty = self.b.ty(st) if st is not None else ""
+                ok = ty.startswith(("core::option::Option<", "core::result::Result<"))
+            if ok and c.args and c.args[0][0] in ("c", "m"):
+                return self.disc_root(self.canon.path(c.args[0][1]), depth + 1)
+        return path
 
     def expr_of_operand(self, op, depth=0):
         k = op[0]
@@ -236,6 +283,15 @@ class Dataflow:
             return None
         st = dict(st)
         st[e] = new
+        # the result of x.is_some() / is_none() / is_ok() / is_err() says which variant x is
+        if k == "call" and new[0] == "in" and len(new[1]) == 1:
+            t = self.b.term(e[1])
+            pv = self.VARIANT_PREDICATES.get(t[1].get("def", "")) if t[0] == "call" else None
+            if pv is not None and t[2] and t[2][0][0] in ("c", "m"):
+                truth = next(iter(new[1]))
+                target = self.disc_root(self.canon.path(t[2][0][1]))
+                want = pv if truth == 1 else 1 - pv
+                return self.restrict(st, ("disc", target), ("in", frozenset([want])))
         # comparisons against constants refine the inner expression
         if k == "bin" and e[1] in ("Eq", "Ne") and new[0] == "in" and len(new[1]) == 1:
             truth = next(iter(new[1]))
@@ -311,9 +367,9 @@ class Dataflow:
         if k == "switch":
             e = self.expr_of_operand(t[1])
             ty = self.b.ty(t[4])
-            vals = [int(v) for v, _ in t[2]]
+            vals = [signed_value(int(v), ty) for v, _ in t[2]]
             for v, tg in t[2]:
-                ns = self.restrict(st, e, ("in", frozenset([int(v)])))
+                ns = self.restrict(st, e, ("in", frozenset([signed_value(int(v), ty)])))
                 if ns is not None:
                     yield tg, ns
             if ty == "bool":
@@ -547,6 +603,62 @@ class DisjFlow(Dataflow):
                     inq.add(succ)
                     wl.append(succ)
         self.state_in = {bb: self._join_all(s) for bb, s in self.states.items()}
+
+    def feasible_reach(self, start, states=None, removed_nodes=(), removed_edges=()):
+        """blocks reachable from block `start` when execution enters it in one of `states` (default: every state the global
+        analysis saw there), following only edges the abstract state does not contradict. A subset of the syntactic
+        reachability: `let done = matches!(x, Last); if done { return }` does not 'reach' the loop head on the Last edge."""
+        b = self.b
+        removed_nodes = set(removed_nodes)
+        removed_edges = set(removed_edges)
+        if start in removed_nodes:
+            return set()
+        if states is None:
+            init = set(self.states.get(start, ()))
+        else:
+            init = {frozenset(st.items()) if isinstance(st, dict) else st for st in states}
+        if not init:
+            return set()
+        table = {start: init}
+        collapsed = set()
+        wl = deque([start])
+        inq = {start}
+        iters = 0
+        while wl:
+            bb = wl.popleft()
+            inq.discard(bb)
+            iters += 1
+            if iters > 50000:
+                return set(b.reachable_from(start, removed_nodes, removed_edges))   # give up: syntactic answer (sound)
+            outs = {}
+            for fs in table[bb]:
+                sts = [dict(fs)]
+                for s in b.stmts(bb):
+                    sts = [n for st in sts for n in self.split_stmt(st, s)]
+                for st in sts:
+                    for succ, ns in self.edge_states(bb, st):
+                        if succ in removed_nodes or (bb, succ) in removed_edges:
+                            continue
+                        outs.setdefault(succ, set()).add(frozenset(ns.items()))
+            for succ, new in outs.items():
+                old = table.get(succ, set())
+                if new <= old:
+                    continue
+                merged = old | new
+                if succ in collapsed or len(merged) > self.CAP:
+                    collapsed.add(succ)
+                    merged = {frozenset(self._join_all(merged).items())}
+                    if merged == old:
+                        continue
+                table[succ] = merged
+                if succ not in inq:
+                    inq.add(succ)
+                    wl.append(succ)
+        return set(table.keys())
+
+    def feasible_reach_edge(self, u, v, removed_nodes=(), removed_edges=()):
+        """blocks feasibly reachable after taking the CFG edge u -> v"""
+        return self.feasible_reach(v, self.edge_sets.get((u, v), set()), removed_nodes, removed_edges)
 
     def states_at(self, bb):
         return [dict(fs) for fs in self.states.get(bb, ())]
